@@ -164,11 +164,20 @@ def check_integral(lm, integrand, out, names, stats, max_points=5):
     """Compare `out` (funsor's Integrate(lm, integrand, names)) with integral_at."""
     inputs = dict(lm.inputs)
     inputs.update(integrand.inputs)
-    if any(n not in inputs or inputs[n].dtype != "real" for n in names):
+    if any(n not in inputs for n in names):
+        return None
+    # integer variables reduced together with the real ones: a plain sum over their values
+    int_names = [n for n in names if inputs[n].dtype != "real"]
+    all_names = names
+    names = [n for n in names if inputs[n].dtype == "real"]
+    if not names:
         return None
     if tuple(lm.output.shape) != ():
         return None
-    axes = sorted(oracle.input_axes({k: v for k, v in inputs.items() if k not in names}))
+    int_axes = [(n, ("int", inputs[n].size), inputs[n].size) for n in int_names]
+    if int(np.prod([a[2] for a in int_axes])) > 24:
+        return None
+    axes = sorted(oracle.input_axes({k: v for k, v in inputs.items() if k not in all_names}))
     sizes = [a[2] for a in axes]
     pts = list(itertools.product(*[range(s) for s in sizes]))
     if len(pts) > max_points:
@@ -177,7 +186,14 @@ def check_integral(lm, integrand, out, names, stats, max_points=5):
     for idx in pts:
         point = {a[0]: oracle._point_value(a[1], i, a[0]) for a, i in zip(axes, idx)}
         try:
-            want = integral_at(lm, integrand, names, point)
+            want = 0.0
+            for iv in itertools.product(*[range(a[2]) for a in int_axes]):
+                ipoint = dict(point, **{a[0]: oracle._point_value(a[1], i, a[0]) for a, i in zip(int_axes, iv)})
+                part = integral_at(lm, integrand, names, ipoint)
+                if part is None:
+                    want = None
+                    break
+                want = want + part
         except oracle.Declined:
             want = None
         except Exception:  # noqa
